@@ -366,6 +366,9 @@ class Gen:
         shape = self.r.choice(["named", "tuple"])
         main = self.r.choice([l for l in LEAVES if not l.zst] + [n for n in self.nested if not n.zst])
         mode = self.r.choice(["plain", "plain", "plain", "compact", "encoded_as"])
+        if self.r.random() < 0.15:
+            # a transparent struct made of zero-sized fields only
+            main, mode = self.r.choice([l for l in LEAVES if l.zst]), "plain"
         if mode != "plain":
             main = self.r.choice(UINTS)
         fs = [Field(None, main, mode, as_ty=f"Compact<{main.rust}>" if mode == "encoded_as" else None)]
